@@ -139,6 +139,11 @@ type sim struct {
 var noRecover = os.Getenv("VERIF_FUZZ_NORECOVER") != ""
 var allowOOM = os.Getenv("VERIF_FUZZ_ALLOW_OOM") != ""
 
+// noWhiteBox switches off the one oracle that looks inside the store (number
+// of operations pending in the shared write batch); used to measure what the
+// black-box oracles find on their own.
+var noWhiteBox = os.Getenv("VERIF_FUZZ_NOWHITEBOX") != ""
+
 // knownOOM recognises the one argument shape that is known to make the
 // process allocate without bound (known finding alloc:json.set /
 // alloc:json.arrappend: sjson pads an array up to the index named in the path;
@@ -911,7 +916,7 @@ func (s *sim) stepMutated() {
 	newHLL := s.noteHLL(args, !errLike)
 	r1 := s.rawSnap()
 	st := s.store()
-	if pend := st.VerifDefaultBatchPending(); pend != 0 || st.VerifIsBatching() {
+	if pend := st.VerifDefaultBatchPending(); (pend != 0 || st.VerifIsBatching()) && !noWhiteBox {
 		s.violate("batch-not-empty", "leak:"+shape, "after %s -> %s the store's shared write batch holds %d operation(s) (batching=%v) while nothing is being applied", sent, o.text(), pend, st.VerifIsBatching())
 		s.hitShapes[shape] = true
 		failed = true
